@@ -43,6 +43,14 @@ def selection(c, rng, mode, kind):
     i0 = rng.randint(0, n - 2)
     i1 = rng.randint(i0 + 1, n - 1)
     idx = list(range(i0, i1 + 1))
+    if kind == "isel-gap":
+        # an increasing index list with at least one adjacent pair and at least one gap (e.g. two bath stretches); n >= 4
+        if n < 4:
+            return {}, list(range(n)), "none"
+        a = rng.randint(0, n - 4)
+        gap = rng.randint(2, n - 2 - a)
+        idx = [a, a + 1] + list(range(a + 1 + gap, min(n, a + 1 + gap + rng.randint(1, 3))))
+        return ({"ci_avg_time_isel": idx} if over_time else {"ci_avg_x_isel": idx}), idx, "isel-gap"
     if over_time:
         t = c.ds.time.values
         if kind == "sel":
@@ -57,7 +65,7 @@ def run_one(ctx, c, out, mode, kind, ci, size=60):
     rng = ctx.rng
     selkw, idx, kind = selection(c, rng, mode, kind)
     over_time = mode in ("avg1", "avg2")
-    desc = dict(calib.case_desc(c), mode=mode, selection=kind, idx=[idx[0], idx[-1]], conf_ints=ci)
+    desc = dict(calib.case_desc(c), mode=mode, selection=kind, idx=(idx if kind == "isel-gap" else [idx[0], idx[-1]]), conf_ints=ci)
     kw = dict(mc_sample_size=size, conf_ints=[2.5, 97.5] if ci else None, mc_remove_set_flag=False, **{MODES[mode]: True}, **selkw)
     seed = rng.randrange(10**6)
     try:
@@ -171,7 +179,7 @@ def run(ctx):
         if isinstance(out, tuple):
             continue
         for mode in MODES:
-            for kind in ("sel", "isel", "none"):
+            for kind in ("sel", "isel", "isel-gap", "none"):
                 for ci in (True, False):
                     run_one(ctx, c, out, mode, kind, ci)
             sel_isel_pair(ctx, c, out, mode)
